@@ -338,7 +338,8 @@ def fresh_context(an, rep):
             "T::deserialize", "does not decode through T::deserialize")
     for name in ("serialize_to_bytes", "serialize_to_byte_vec"):
         b = core.body(name)
-        ks = [info["key"] for _, _, info in mir.calls(b)]
+        # calls made directly or through private helpers shared by the convenience entry points
+        ks = sorted({c[2] for p_ in walk.walk(b, core) for c in p_.calls()} | {info["key"] for _, _, info in mir.calls(b)})
         R.check("serialize" in ks, name, "calls serialize", "convenience entry point does not go through serialize()",
                 sample={"fn": name, "calls": ks})
         R.check(not any(k.startswith("SerializationContext") for k in ks), name, "own context",
